@@ -197,7 +197,10 @@ def run_shard(spec, tier, seed):
     return res
 
 
-def write_ini(path, kv):
+def write_ini(path, kv, annotated=False):
+    """annotated: the file as a user keeps it - the `list-form-inputs` template with
+    its comment lines still in place and notes at the end.  Comments do not survive a
+    write-back, so the rewritten file is much shorter than what was on disk."""
     cp = configparser.ConfigParser()
     for q, v in kv.items():
         s, b = q.split('.', 1)
@@ -206,6 +209,15 @@ def write_ini(path, kv):
         cp.set(s, b, v)
     with open(path, 'w') as f:
         cp.write(f)
+    if annotated:
+        out = ['# my tax inputs - do not lose!']
+        for line in open(path).read().splitlines():
+            if line and not line.startswith('['):
+                out.append('# ' + ('what this box means, copied from the template ' * 2))
+            out.append(line)
+        out += ['', '[zz_notes]'] + [f'note_{k} = remember to ask the accountant about item {k} before filing' for k in range(40)]
+        with open(path, 'w') as f:
+            f.write('\n'.join(out) + '\n')
 
 
 def count_evals(year, forms, tmp, initial, full_answers, lookup, fam, key):
@@ -236,7 +248,10 @@ def one_fault(res, spec, year, forms, tmp, initial, full_answers, lookup, fault,
     from hv import hx, scen
     F = hx.fields
     path = os.path.join(tmp, 'f.ini')
-    write_ini(path, initial)
+    annotated = fault[0] in ('sigint', 'eof', 'unsupported-form') and isinstance(fault[1], int) and fault[1] % 2 == 1
+    write_ini(path, initial, annotated=annotated)
+    if annotated:
+        res.count('sessions_from_annotated_file')
     before = parse(path)
     p = scen.Persona(year, fam, key, overrides=full_answers)
 
